@@ -82,6 +82,27 @@ func (u *Universe) verifyFunc(fi *FuncInfo) (obls []*Obl, rep FuncReport) {
 	}
 	bind(fi.Decl.Recv)
 	bind(fi.Decl.Type.Params)
+	if fi.Sig != nil {
+		// closure unit: the variables it captures are arbitrary, but the same
+		// throughout the body and the contract
+		ast.Inspect(fi.Decl.Body, func(n ast.Node) bool {
+			id, ok := n.(*ast.Ident)
+			if !ok {
+				return true
+			}
+			v, ok := e.info.Uses[id].(*types.Var)
+			if !ok || isPkgLevel(v) || v.IsField() {
+				return true
+			}
+			if v.Pos() >= fi.Decl.Type.Pos() && v.Pos() <= fi.Decl.Body.End() {
+				return true
+			}
+			if _, have := st.vars[v]; !have {
+				st.vars[v] = e.symFor(v.Name(), v.Type(), st)
+			}
+			return true
+		})
+	}
 	var rvars []types.Object
 	var resNames []string
 	if fi.Decl.Type.Results != nil {
@@ -105,7 +126,9 @@ func (u *Universe) verifyFunc(fi *FuncInfo) (obls []*Obl, rep FuncReport) {
 		resNames = con.Results
 	}
 	e.retVars = rvars
-	if sig, ok := fi.Obj.Type().(*types.Signature); ok {
+	if fi.Sig != nil {
+		e.curRes = resTypesOf(fi.Sig.Results())
+	} else if sig, ok := fi.Obj.Type().(*types.Signature); ok {
 		e.curRes = resTypesOf(sig.Results())
 	}
 	// ghost state
